@@ -415,6 +415,18 @@ def check_translation(name, cfg, style, variant, res):
         if C.fingerprint(m2) != fp_ref:
             from .c18 import _first_diff
             flag("second-build-differs-after-first-ran", _first_diff(fp_ref, C.fingerprint(m2)))
+        # a third build from the SAME State objects but WITHOUT the Transition objects is the machine a fresh definition
+        # without them denotes: nothing the earlier builds merged in may have stuck to the definition
+        try:
+            states_f, _, root_f = collect(cfg, variant)
+            kw3 = dict(id=cfg["id"], context=copy.deepcopy(cfg.get("context")))
+            m3 = build_machine(states=states, transitions=[], root=root, **kw3, **mk(logB))
+            m3_ref = build_machine(states=states_f, transitions=[], root=root_f, **kw3, **mk(logB))
+            if C.fingerprint(m3) != C.fingerprint(m3_ref):
+                from .c18 import _first_diff
+                flag("later-build-inherits-from-earlier-build", "built again without its Transition objects: " + _first_diff(C.fingerprint(m3_ref), C.fingerprint(m3)))
+        except XStateMachineError:
+            pass  # without its transitions the definition may be incomplete (unreachable / unresolved names): not judged
         # mutate the dicts handed to State, then the ALREADY BUILT machine must be unaffected
         before = C.fingerprint(m2)
         for s in states:
